@@ -6,17 +6,81 @@ OASIS = dict(tu='src/oasis.cpp', spec_headers=['spec/tape.h', 'spec/oasis_spec.h
 
 def G(name, **kw):
     d = dict(OASIS)
-    d.update(name=name, kind='width_bounded', bound='loops bounded by the operand width: 10 groups of 7 bits; tape window 64 bytes',
-             unwind=12, timeout=900, tier='quick')
+    d.update(name=name, kind='width_bounded', bound='loops bounded by the operand width: 10 groups of 7 bits; tape window 16 or 28 bytes (> the 10 resp. 21 bytes one call can touch)',
+             unwind=12, timeout=1500, tier='quick', defines={'VF_TAPE_MAX': 16, 'VF_WTAPE_MAX': 16})
     d.update(kw)
     return d
 
 
+RD = dict(replace=['oasis_read'], replace_extern=['fputs'])
 GROUPS = [
+    # byte stream primitives against the assumed stdio contracts
+    G('stream_read', defines={'VF_TAPE_MAX': 40, 'VF_WTAPE_MAX': 40}, roots=['gdstk::oasis_read'], entry='h_stream_read', enforce='oasis_read',
+      replace_extern=['fread', 'fputs'], kind='unbounded', bound='loop-free', unwind=None),
+    G('stream_peek', roots=['gdstk::oasis_peek'], entry='h_stream_peek', enforce='oasis_peek',
+      replace_extern=['fread', 'fputs', 'fseek'], kind='unbounded', bound='loop-free', unwind=None),
+    G('stream_write', defines={'VF_TAPE_MAX': 40, 'VF_WTAPE_MAX': 40}, roots=['gdstk::oasis_write'], entry='h_stream_write', enforce='oasis_write',
+      replace_extern=['fwrite'], kind='unbounded', bound='loop-free in file mode without signature (the crc32 chunking loop is unreachable under the requires; unwinding assertion checks that)', unwind=None, unwindset={'oasis_write.0': 1}),
+    G('stream_putc', roots=['gdstk::oasis_putc'], entry='h_stream_putc', enforce='oasis_putc',
+      replace_extern=['putc'], kind='unbounded', bound='loop-free', unwind=None),
+    # unsigned integers
     G('uint_read', roots=['gdstk::oasis_read_unsigned_integer'], entry='h_uint_read',
-      enforce='oasis_read_unsigned_integer', replace=['oasis_read'], replace_extern=['fputs']),
+      enforce='oasis_read_unsigned_integer', **RD),
     G('uint_write', roots=['gdstk::oasis_write_unsigned_integer'], entry='h_uint_write',
       enforce='oasis_write_unsigned_integer', replace=['oasis_write']),
+    # signed integers and deltas
+    G('int_read', roots=['gdstk::oasis_read_int_internal'], entry='h_int_read',
+      enforce='oasis_read_int_internal', **RD),
+    G('integer_read', drop_checks=['--signed-overflow-check'], roots=['gdstk::oasis_read_integer'], entry='h_integer_read',
+      enforce='oasis_read_integer', replace=['oasis_read_int_internal']),
+    G('2delta_read', drop_checks=['--signed-overflow-check'], roots=['gdstk::oasis_read_2delta'], entry='h_2delta_read',
+      enforce='oasis_read_2delta', replace=['oasis_read_int_internal']),
+    G('3delta_read', drop_checks=['--signed-overflow-check'], roots=['gdstk::oasis_read_3delta'], entry='h_3delta_read',
+      enforce='oasis_read_3delta', replace=['oasis_read_int_internal']),
+    G('gdelta_read', defines={'VF_TAPE_MAX': 28, 'VF_WTAPE_MAX': 28}, drop_checks=['--signed-overflow-check'], roots=['gdstk::oasis_read_gdelta'], entry='h_gdelta_read',
+      enforce='oasis_read_gdelta', replace=['oasis_read_int_internal', 'oasis_peek']),
+    G('int_write', roots=['gdstk::oasis_write_int_internal'], entry='h_int_write',
+      enforce='oasis_write_int_internal', replace=['oasis_write']),
+    G('integer_write', roots=['gdstk::oasis_write_integer'], entry='h_integer_write',
+      enforce='oasis_write_integer', replace=['oasis_write_int_internal']),
+    G('2delta_write', roots=['gdstk::oasis_write_2delta'], entry='h_2delta_write',
+      enforce='oasis_write_2delta', replace=['oasis_write_int_internal'], replace_extern=['fputs']),
+    G('3delta_write', roots=['gdstk::oasis_write_3delta'], entry='h_3delta_write',
+      enforce='oasis_write_3delta', replace=['oasis_write_int_internal'], replace_extern=['fputs']),
+    G('gdelta_write', defines={'VF_TAPE_MAX': 28, 'VF_WTAPE_MAX': 28}, roots=['gdstk::oasis_write_gdelta'], entry='h_gdelta_write',
+      enforce='oasis_write_gdelta', replace=['oasis_write_int_internal']),
+    # reals
+    G('real_read_int', roots=['gdstk::oasis_read_real_by_type'], entry='h_real_read',
+      defines={'VF_TAPE_MAX': 28, 'VF_WTAPE_MAX': 28, 'VF_TYPE_LO': 0, 'VF_TYPE_HI': 1},
+      enforce='oasis_read_real_by_type', replace=['oasis_read_unsigned_integer', 'oasis_read', 'little_endian_swap32', 'little_endian_swap64'],
+      replace_extern=['fputs']),
+    G('real_read_recip', roots=['gdstk::oasis_read_real_by_type'], entry='h_real_read',
+      defines={'VF_TAPE_MAX': 28, 'VF_WTAPE_MAX': 28, 'VF_TYPE_LO': 2, 'VF_TYPE_HI': 3},
+      enforce='oasis_read_real_by_type', replace=['oasis_read_unsigned_integer', 'oasis_read', 'little_endian_swap32', 'little_endian_swap64'],
+      replace_extern=['fputs']),
+    G('real_read_ratio', roots=['gdstk::oasis_read_real_by_type'], entry='h_real_read',
+      defines={'VF_TAPE_MAX': 28, 'VF_WTAPE_MAX': 28, 'VF_TYPE_LO': 4, 'VF_TYPE_HI': 5},
+      enforce='oasis_read_real_by_type', replace=['oasis_read_unsigned_integer', 'oasis_read', 'little_endian_swap32', 'little_endian_swap64'],
+      replace_extern=['fputs']),
+    G('real_read_ieee', roots=['gdstk::oasis_read_real_by_type'], entry='h_real_read',
+      defines={'VF_TAPE_MAX': 28, 'VF_WTAPE_MAX': 28, 'VF_TYPE_LO': 6, 'VF_TYPE_HI': 7},
+      enforce='oasis_read_real_by_type', replace=['oasis_read_unsigned_integer', 'oasis_read', 'little_endian_swap32', 'little_endian_swap64'],
+      replace_extern=['fputs']),
+    G('real_read_bad', roots=['gdstk::oasis_read_real_by_type'], entry='h_real_read',
+      defines={'VF_TAPE_MAX': 28, 'VF_WTAPE_MAX': 28, 'VF_TYPE_LO': 8, 'VF_TYPE_HI': 255},
+      enforce='oasis_read_real_by_type', replace=['oasis_read_unsigned_integer', 'oasis_read', 'little_endian_swap32', 'little_endian_swap64'],
+      replace_extern=['fputs']),
+    G('real_write', extra_checks=['--conversion-check'], defines={'VF_TAPE_MAX': 28, 'VF_WTAPE_MAX': 28}, roots=['gdstk::oasis_write_real'], entry='h_real_write',
+      enforce='oasis_write_real', replace=['oasis_write_unsigned_integer', 'oasis_write', 'oasis_putc', 'little_endian_swap64']),
+    # byte order (src/utils.cpp): arrays of any length, loop invariants
+] + [
+    dict(name=nm, tu='src/utils.cpp', spec_headers=['spec/ghost.h', 'spec/oasis_spec.h'], models=[],
+         harness='harness/c19_endian.c', roots=['gdstk::' + fn], entry=entry, enforce=fn, kind='unbounded',
+         bound='none: loop contract (invariant + decreases), buffer length symbolic up to 2^32 elements',
+         unwind=None, timeout=900, tier='quick')
+    for nm, fn, entry in [('swap16', 'big_endian_swap16', 'h_swap16'), ('swap32', 'big_endian_swap32', 'h_swap32'),
+                          ('swap64', 'big_endian_swap64', 'h_swap64'), ('leswap16', 'little_endian_swap16', 'h_leswap16'),
+                          ('leswap32', 'little_endian_swap32', 'h_leswap32'), ('leswap64', 'little_endian_swap64', 'h_leswap64')]
 ]
 
 TRUSTED_BASE = [
@@ -29,7 +93,7 @@ TRUSTED_BASE = [
 ASSUMPTIONS = [
     'stdio (fread/fwrite/putc/fseek/fputs) behaves as the assumed contracts in models/stdio_contracts.h: a regular file returns the bytes on the tape and reads short exactly at end of file',
     'streams are in file mode (OasisStream.data == NULL, cursor == NULL, no running crc32/checksum32); the in-memory CBLOCK mode of oasis_read/oasis_write is not covered',
-    'tape window of 64 bytes per proof (each codec call is shown to touch at most 21 bytes from its start position)',
+    'tape window of 16 bytes (single integers) or 28 bytes (g-deltas, reals) per proof, arbitrary start position inside it; each contract proves the call touches at most 10 resp. 21 bytes from its start position',
     'malloc never fails',
 ]
 EXPLANATION = 'contract-based deductive verification with CBMC --dfcc on C lowered from the real C++'
